@@ -1126,11 +1126,79 @@ def _p0(trees: Dict[str, ast.Module]):
         Sub().visit(tree)
 
 
+def _p3(trees: Dict[str, ast.Module]):
+    """P3  the reverse of P2 for helpers the rules DO know: a private one-expression helper that existed when the rules were
+    confirmed (sa/frozen_helpers.json) and has since been inlined and deleted is restored -- every occurrence of its expression
+    (parameters as wildcards, bound consistently) in the functions of its module becomes a call again, and the helper is put
+    back.  The occurrence must unify with the recorded expression exactly; anything else stays as it is."""
+    import json as _json
+    here = _os.path.dirname(_os.path.abspath(__file__))
+    try:
+        helpers = _json.load(open(_os.path.join(here, 'frozen_helpers.json'), encoding='utf8'))
+    except OSError:
+        return
+    from .exprs import _unify          # structural matcher (symmetric comparisons match either way)
+    for h in helpers:
+        tree = trees.get(h['module'])
+        if tree is None:
+            continue
+        # still there?
+        holder = tree.body
+        cls_node = None
+        if h['class']:
+            cls_node = next((c for c in tree.body if isinstance(c, ast.ClassDef) and c.name == h['class']), None)
+            if cls_node is None:
+                continue
+            holder = cls_node.body
+        if any(isinstance(n, ast.FunctionDef) and n.name == h['name'] for n in ast.walk(tree)):
+            continue
+        fn = ast.parse(h['source']).body[0]
+        params = [a.arg for a in fn.args.posonlyargs + fn.args.args]
+        is_static = any(isinstance(d, ast.Name) and d.id == 'staticmethod' for d in fn.decorator_list)
+        ret = fn.body[-1].value
+
+        class W(ast.NodeTransformer):
+            def visit_Name(self, n):
+                if n.id in params:
+                    return ast.copy_location(ast.Name(id='__E_' + n.id, ctx=n.ctx), n)
+                return n
+        patt = W().visit(_copy.deepcopy(ret))
+        restored = 0
+
+        class R(ast.NodeTransformer):
+            def generic_visit(self, node):
+                node = super().generic_visit(node)
+                nonlocal restored
+                if isinstance(node, ast.expr) and type(node) is type(patt):
+                    bnd: Dict[str, str] = {}
+                    if _unify(patt, node, bnd) and all(('$$' + p_) in bnd for p_ in params):
+                        args = [ast.parse(bnd['$$' + p_], mode='eval').body for p_ in params]
+                        if h['class'] and not is_static:
+                            func = ast.Attribute(value=args[0], attr=h['name'], ctx=ast.Load())
+                            args = args[1:]
+                        else:
+                            func = ast.Name(id=h['name'], ctx=ast.Load())
+                        restored += 1
+                        return ast.copy_location(ast.Call(func=func, args=args, keywords=[]), node)
+                return node
+        scope = [cls_node] if cls_node is not None else [tree]
+        for sc in scope:
+            for f2 in ast.walk(sc):
+                if isinstance(f2, ast.FunctionDef):
+                    R().visit(f2)
+        if restored:
+            fn._restored = True            # type: ignore[attr-defined]
+            ast.fix_missing_locations(fn)
+            holder.append(fn)
+            ast.fix_missing_locations(tree)
+
+
 def normalise_package(trees: Dict[str, ast.Module]):
     for tree in trees.values():          # parent links would drag the whole module into every deepcopy
         for n in ast.walk(tree):
             n.__dict__.pop('_parent', None)
     _p0(trees)
+    _p3(trees)
     _p1(trees)
     n = _p2(trees)
     if n:
